@@ -79,6 +79,10 @@ func vfQBuild(sc *vfQScenario) *vfQRun {
 				r.ops = append(r.ops, rec)
 				r.hist = append(r.hist, fmt.Sprintf("call T%d.%s", ti, o))
 				rec.res = r.do(o)
+				// (also judged here, not only in the state-key callback: a replay does not compute state keys)
+				if r.q.queue.Len() > sc.Capacity {
+					r.overCap = true
+				}
 				rec.retAt = len(r.hist)
 				r.hist = append(r.hist, fmt.Sprintf("ret T%d.%s=%s", ti, o, rec.res))
 			}
